@@ -1,7 +1,7 @@
 #!/usr/bin/env python3
 """Evaluate seeded defects.
 
-  mutants.py confirm <patch.diff> <demo.rs> [--features devices]
+  mutants.py confirm <patch.diff> <demo.rs> [--features devices | --demo-args "<cargo test args>"] [--aux-dir <dir>]
       in a scratch worktree of /repo (under /tmp, removed afterwards): baseline suite passes with the patch, the
       demonstration passes without the patch and fails with it.
   mutants.py run <patch.diff> [<ID> ...]
@@ -20,7 +20,7 @@ def sh(cmd, cwd=None, timeout=3600):
     return p.returncode, p.stdout
 
 
-def confirm(patch, demo, features, demo_args=None):
+def confirm(patch, demo, features, demo_args=None, aux_dir=None):
     wt = tempfile.mkdtemp(prefix="rrtk_confirm_")
     os.rmdir(wt)
     res = {}
@@ -31,6 +31,9 @@ def confirm(patch, demo, features, demo_args=None):
         if demo_args:       # e.g. a non-default configuration: --no-default-features --features std
             feat = demo_args.split()
         shutil.copy(demo, os.path.join(wt, "tests", "zz_seeded_demo.rs"))
+        if aux_dir:         # e.g. a downstream crate the demonstration builds; looked up under tests/<name>
+            shutil.copytree(aux_dir, os.path.join(wt, "tests", os.path.basename(aux_dir.rstrip("/"))),
+                            ignore=shutil.ignore_patterns("target"))
         rc, out = sh(["cargo", "test", "--offline", "--test", "zz_seeded_demo"] + feat, cwd=wt)
         res["demo_without_patch"] = "pass" if rc == 0 else "FAIL"
         rc, out = sh(["git", "apply", os.path.abspath(patch)], cwd=wt)
@@ -39,6 +42,8 @@ def confirm(patch, demo, features, demo_args=None):
         res["demo_with_patch"] = "pass" if rc == 0 else "FAIL"
         res["demo_failure"] = "\n".join(l for l in out.splitlines() if "panicked" in l or "assert" in l)[:600]
         os.remove(os.path.join(wt, "tests", "zz_seeded_demo.rs"))
+        if aux_dir:
+            shutil.rmtree(os.path.join(wt, "tests", os.path.basename(aux_dir.rstrip("/"))), ignore_errors=True)
         rc, out = sh(["cargo", "test", "--workspace", "--no-fail-fast", "--offline"], cwd=wt)
         tot = sum(int(m.group(1)) for m in re.finditer(r"test result: ok\. (\d+) passed", out))
         res["baseline_with_patch"] = "pass (%d incl. doctests)" % tot if rc == 0 else "FAIL"
@@ -91,7 +96,8 @@ if __name__ == "__main__":
             dargs = a[a.index("--demo-args") + 1]
         elif "--features" in a:
             feats = a[a.index("--features") + 1]
-        sys.exit(0 if confirm(a[1], a[2], feats, dargs) else 1)
+        aux = a[a.index("--aux-dir") + 1] if "--aux-dir" in a else None
+        sys.exit(0 if confirm(a[1], a[2], feats, dargs, aux) else 1)
     elif a and a[0] == "run":
         run(a[1], a[2:])
     else:
